@@ -40,6 +40,16 @@ type scenario struct {
 
 // runScenarios: parent side. `child` is the mode name the child is started with.
 func runScenarios(res *lp.Result, child string, n int, describe func(i int) string) {
+	idx := make([]int, n)
+	for i := range idx {
+		idx[i] = i
+	}
+	runScenariosAt(res, child, idx, describe)
+}
+
+// runScenariosAt runs the child scenarios with the given indices
+func runScenariosAt(res *lp.Result, child string, indices []int, describe func(i int) string) {
+	n := len(indices)
 	par := runtime.NumCPU()
 	if par > 8 {
 		par = 8
@@ -65,7 +75,7 @@ func runScenarios(res *lp.Result, child string, n int, describe func(i int) stri
 			defer cancel()
 			cmd := exec.CommandContext(ctx, os.Args[0], "-tier", *tier, "-seed", fmt.Sprint(*seed), "-driver", *driverPath, "-gen", *genDir,
 				"-out", tmp.Name(), child)
-			cmd.Env = append(os.Environ(), fmt.Sprintf("VERIF_SCENARIO=%d", i))
+			cmd.Env = append(os.Environ(), fmt.Sprintf("VERIF_SCENARIO=%d", indices[i]))
 			var eb bytes.Buffer
 			cmd.Stderr = &eb
 			cmd.Stdout = io.Discard
@@ -89,7 +99,7 @@ func runScenarios(res *lp.Result, child string, n int, describe func(i int) stri
 	}
 	wg.Wait()
 	for i, o := range outs {
-		d := describe(i)
+		d := describe(indices[i])
 		res.Count("scenarios")
 		if o.crash != "" {
 			res.Case(d, true)
